@@ -202,6 +202,7 @@ impl Prop for C03Prop {
                 ),
             );
             f.facts.extend(mlstr_facts(&case.input, &p1, &p2));
+            f = f.fact(if case.cfg.wrap_column <= 30 { "wrap<=30" } else { "wrap>30" });
             if limit1 || logcap::any_contains("Iteration limit reached") {
                 f = f.fact("log:iteration-limit");
             }
@@ -286,6 +287,7 @@ fn check_cli(case: &Case, ctx: &mut Ctx) -> Outcome {
         let p1 = format_with(&case.cfg, &case.input);
         let p2 = format_with(&case.cfg, &p1);
         facts.extend(mlstr_facts(&case.input, &p1, &p2));
+        facts.push(if case.cfg.wrap_column <= 30 { "wrap<=30".into() } else { "wrap>30".into() });
         let (n, a, b) = first_diff_line(&p1, &p2);
         return Outcome::Fail(
             Failure::new(
